@@ -238,17 +238,22 @@ class MinimizerScipyOptimize(MinimizerBase):
         if minimizer_contour_kwargs:
             raise ValueError("Unknown parameters for {}: {}".format(_algorithm, minimizer_contour_kwargs.keys()))
 
-        if _algorithm == "beacon":
-            return self._contour_beacon(parameter_name_1, parameter_name_2, sigma=sigma)
-        if _algorithm == "heuristic_grid":
-            return self._contour_heuristic_grid(
-                parameter_name_1,
-                parameter_name_2,
-                sigma=sigma,
-                initial_points=_initial_points,
-                iterations=_iterations,
-                area_scale_factor=_area_scale_factor,
-            )
+        try:
+            if _algorithm == "beacon":
+                return self._contour_beacon(parameter_name_1, parameter_name_2, sigma=sigma)
+            if _algorithm == "heuristic_grid":
+                return self._contour_heuristic_grid(
+                    parameter_name_1,
+                    parameter_name_2,
+                    sigma=sigma,
+                    initial_points=_initial_points,
+                    iterations=_iterations,
+                    area_scale_factor=_area_scale_factor,
+                )
+        except Exception:
+            # Write back parameter values to nexus parameter nodes if the calculation fails:
+            self._func_wrapper_unpack_args(self._par_val)
+            raise
 
     def _contour_heuristic_grid(
         self,
@@ -613,17 +618,19 @@ class MinimizerScipyOptimize(MinimizerBase):
         if not self.did_fit:
             raise RuntimeError("Need to perform a fit before calling profile()!")
         self._save_state()
-        _par_id = self._par_names.index(parameter_name)
-        _y_offset = self.function_value if subtract_min else 0
-        _bound_low, _bound_high, _arrow_specs = self._get_profile_bound(parameter_name, low, high, sigma, cl, subtract_min, arrows)
-        self._load_state()
-        _par = np.linspace(start=_bound_low, stop=_bound_high, num=size, endpoint=True)
+        try:
+            _par_id = self._par_names.index(parameter_name)
+            _y_offset = self.function_value if subtract_min else 0
+            _bound_low, _bound_high, _arrow_specs = self._get_profile_bound(parameter_name, low, high, sigma, cl, subtract_min, arrows)
+            self._load_state()
+            _par = np.linspace(start=_bound_low, stop=_bound_high, num=size, endpoint=True)
 
-        _y = np.zeros(size)
-        self._x0 = self._par_val
-        for i in range(size):
-            _y[i] = self._calc_fun_with_constraints([{"type": "eq", "fun": lambda x: x[_par_id] - _par[i]}], continuous_x0=True)
-        self._load_state()
+            _y = np.zeros(size)
+            self._x0 = self._par_val
+            for i in range(size):
+                _y[i] = self._calc_fun_with_constraints([{"type": "eq", "fun": lambda x: x[_par_id] - _par[i]}], continuous_x0=True)
+        finally:
+            self._load_state()  # return to the minimum, also if the calculation fails
         return np.asarray([_par, _y - _y_offset]), _arrow_specs
 
     def _func_wrapper(self, *parameter_values):
